@@ -105,6 +105,7 @@ def run_shard(pid, tier, seed, shard, nshards, budget_s, out, only_case=None):
 
     if out:
         threading.Thread(target=_deadline, daemon=True).start()
+        ctx.checkpoint_path = out + ".ckpt"
     try:
         mod.run(ctx)
     except BaseException as e:  # noqa: BLE001 - harness crash ⇒ inconclusive shard, reported
@@ -133,6 +134,16 @@ def _spawn(pid, tier, seed, shard, nshards, budget_s, out, timeout):
     if os.path.exists(out):
         with open(out) as f:
             d = json.load(f)
+    elif rc == "timeout" and os.path.exists(out + ".ckpt"):
+        # the shard had to be killed (a call that never returned and did not release the GIL): use its last checkpoint.  Everything it
+        # had observed is kept; the case it was stuck in is recorded as an inconclusive case (neither held nor violated).
+        with open(out + ".ckpt") as f:
+            d = json.load(f)
+        d["crashed"] = None
+        d["killed_after_checkpoint"] = True
+        d.setdefault("inconclusive", []).append(f"shard {shard}: killed by the parent after {dt:.0f} s (a call did not return); observations up to the last checkpoint are used")
+        d.setdefault("counters", {})["shards_killed_after_checkpoint"] = 1
+        d["counters"]["inconclusive_cases"] = d["counters"].get("inconclusive_cases", 0) + 1
     else:
         tail = ""
         try:
